@@ -9,9 +9,9 @@ class ProxySock(harness.FakeSocket):
     pass
 
 
-def run_case(url, proxies, proxy_reads, wrap_log):
+def run_case(url, proxies, proxy_reads, wrap_log, ws=None):
     run = harness.Run()
-    ws = harness.WebSocket(url, proxies=proxies)
+    ws = ws or harness.WebSocket(url, proxies=proxies)
     socks = []
 
     class Sess(WebsocketSession):
@@ -88,6 +88,28 @@ def replay(obligation, extra):
                     if names != ['connecting', 'connect_fail'] or upgrade_written or len(sock.out) != 1:
                         return dict(found=True, input=desc, expected='ConnectFail and not a byte of the WebSocket handshake',
                                     observed='events %r; %d writes; upgrade request written: %s' % (names, len(sock.out), upgrade_written))
+    # histories: several proxied connects in one process (the persist() reconnect case, and different WebSocket objects);
+    # whatever an earlier answer was, a later non-200 / unterminated answer must still fail closed
+    bad_answers = [a for a in answers if not a[2]][:6]
+    for same_object in (True, False):
+        for name, reads, good in bad_answers:
+            tried += 1
+            url, purl = 'ws://target.example:8080/chat', 'http://proxy.example:3128'
+            run1, ws1, socks1 = run_case(url, {'http': purl}, lambda ws: [ok200, harness.response_for(ws.key), b''], [])
+            if 'connected' not in [e.name for e in run1.events]:
+                break
+            if same_object:
+                run2, ws2, socks2 = run_case(url, {'http': purl}, lambda ws, reads=reads: list(reads), [], ws=ws1)
+            else:
+                run2, ws2, socks2 = run_case(url, {'http': purl}, lambda ws, reads=reads: list(reads), [])
+            names = [e.name for e in run2.events]
+            sock = socks2[0] if socks2 else None
+            upgrade_written = sock is not None and any(b'Upgrade: websocket' in w for w in sock.out)
+            if names != ['connecting', 'connect_fail'] or upgrade_written:
+                return dict(found=True, input='a proxied connect answered 200, then a second proxied connect (%s) answered: %s' % (
+                    'same WebSocket object' if same_object else 'another WebSocket object', name),
+                    expected='ConnectFail and not a byte of the WebSocket handshake on the second connect',
+                    observed='events %r; upgrade request written: %s' % (names, upgrade_written))
     # proxy selection by scheme, and the empty mapping
     for url, proxies, expect_proxy in (('ws://t.example/', {'https': 'http://p.example'}, False), ('wss://t.example/', {'http': 'http://p.example'}, False),
                                        ('ws://t.example/', {}, False), ('ws://t.example/', {'http': ''}, False), ('ws://t.example/', {'http': None}, False)):
